@@ -44,10 +44,15 @@ struct Rec {
 struct Guard(usize, Arc<Mutex<Rec>>);
 impl Drop for Guard {
     fn drop(&mut self) {
-        // what a callback owns may take time to release: a visible step before the drop is
-        // recorded, so that "shutdown() returned" can be ordered before it if the router lets it
-        unsafe {
-            libc::sched_yield();
+        // what a callback owns may take time to release: a visible step before the (first) drop
+        // is recorded, so that "shutdown() returned" can be ordered before it if the router lets it
+        // (only the first drop of an execution: one such point is enough to separate the two, a
+        // point per callback multiplies the schedules for nothing)
+        static FIRST: std::sync::atomic::AtomicBool = std::sync::atomic::AtomicBool::new(true);
+        if FIRST.swap(false, Ordering::SeqCst) {
+            unsafe {
+                libc::sched_yield();
+            }
         }
         let s = CLOCK.fetch_add(1, Ordering::SeqCst);
         self.1.lock().unwrap().drops.push((self.0, s));
@@ -285,9 +290,12 @@ pub fn scenarios(tier: Tier) -> Vec<Scenario> {
             for stop in [Stop::Shutdown(1), Stop::Shutdown(2), Stop::DropProxy] {
                 for racing in [false, true] {
                     let b = if rs.len() + racing as usize + matches!(stop, Stop::Shutdown(2)) as usize <= 1 { 4 } else { 3 };
-                    add(P { routes: rs.clone(), stop, racing_add: racing, traffic: false }, b);
+                    // two shutdown callers plus a registering task (four or five tasks with the
+                    // router): one deviation fewer, so that the bound is completed rather than capped
+                    let widest = !rs.is_empty() && racing && matches!(stop, Stop::Shutdown(2));
+                    add(P { routes: rs.clone(), stop, racing_add: racing, traffic: false }, if widest { b - 1 } else { b });
                     if !rs.is_empty() {
-                        add(P { routes: rs.clone(), stop, racing_add: racing, traffic: true }, 2);
+                        add(P { routes: rs.clone(), stop, racing_add: racing, traffic: true }, if widest { 1 } else { 2 });
                     }
                 }
             }
